@@ -28,6 +28,20 @@ package postgres
 // A seqid predicate the evaluator does not understand is reported as class
 // "predicate-not-understood" (never a violation, never non-trivial).
 //
+// Failing statements (c04sFaultSweep): "a delete request ... hides exactly the union" and "the
+// deletion log covers exactly the IDs deleted" also speak about a delete that is reported as done
+// although one of its statements failed. Every delete case whose fault-free run was judged clean is
+// therefore run again once per statement position k of its fault-free trace (BEGIN, PREPARE, every
+// dellog INSERT, the DELETE on filemsglinks, the UPDATE on messages, COMMIT), on a fresh server that
+// answers statement k with a generic statement error (c18Core.arm(script, k, "err")). Demanded:
+//
+//	sql-delete-failure-swallowed         MessageDeleteList returns a non-nil error
+//	sql-delete-committed-after-failure   no successful COMMIT follows the failed statement on its connection
+//
+// The sweep of a trace shape (operation + statement classes) that was already swept clean by this
+// process with the same number of ranges is not repeated for single-range cases; multi-range cases
+// are always swept.
+//
 // Adapter specific parts (c04s_test.go of each directory): c04sOpenCfg (MySQL: a recording
 // proxy in front of the fake server that decodes the binary parameters of COM_STMT_EXECUTE,
 // because the dellog INSERT goes through tx.Prepare), c04sDellogTexts.
@@ -41,6 +55,7 @@ import (
 	"sort"
 	"strconv"
 	"strings"
+	"sync"
 	"testing"
 	"time"
 
@@ -474,7 +489,9 @@ type c04sRun struct {
 	MaxMsgs int
 }
 
-func c04sDo(c *c04sCase, ranges []t.Range) c04sRun {
+// c04sDo runs the adapter call of c on a fresh fake server; k > 0: statement k is answered with a
+// failure of the given kind (c18Core fault kinds).
+func c04sDo(c *c04sCase, ranges []t.Range, k int, kind string) c04sRun {
 	c18Boot()
 	srv, err := c18StartServer()
 	if err != nil {
@@ -496,7 +513,7 @@ func c04sDo(c *c04sCase, ranges []t.Range) c04sRun {
 	if ad, ok := adp.(*adapter); ok && ad.maxMessageResults > 0 {
 		res.MaxMsgs = ad.maxMessageResults
 	}
-	srv.core.arm(c18Script{}, 0, "")
+	srv.core.arm(c18Script{}, k, kind)
 	done := make(chan struct{})
 	go func() {
 		defer close(done)
@@ -625,7 +642,7 @@ func c04sExec(c c04sCase) kit.Outcome {
 		o.Skip = true
 		return o
 	}
-	r := c04sDo(&c, ranges)
+	r := c04sDo(&c, ranges, 0, "")
 	if os.Getenv("C04S_SHOW") != "" {
 		b, _ := json.Marshal(c)
 		fmt.Printf("%s ranges=%s err=%v panic=%q harness=%q\n", b, c04sRangesStr(ranges), r.Err, r.Panic, r.Harness)
@@ -777,6 +794,10 @@ func c04sExec(c c04sCase) kit.Outcome {
 		}
 		multi := len(ranges) >= 2 || (len(ranges) == 1 && ranges[0].Hi > ranges[0].Low+1)
 		o.NonTrivial = understood && multi
+		if v := c04sFaultSweep(&c, ranges, r, what, len(ranges) >= 2, &o); v != nil {
+			o.Viol = v
+			return o
+		}
 
 	case "getall", "getdel":
 		col, table := "seqid", "MESSAGES"
@@ -846,6 +867,90 @@ func c04sExec(c c04sCase) kit.Outcome {
 		}
 	}
 	return o
+}
+
+// c04sSwept: trace shapes whose fault sweep came out clean in this process (see c04sFaultSweep).
+var c04sSwept = struct {
+	sync.Mutex
+	m map[string]bool
+}{m: map[string]bool{}}
+
+func c04sShape(c *c04sCase, evs []c18Ev) string {
+	var sb strings.Builder
+	sb.WriteString(c.Op)
+	for _, e := range evs {
+		w := strings.Fields(e.Text)
+		if len(w) > 2 {
+			w = w[:2]
+		}
+		sb.WriteString(";" + e.Cls + ":" + strings.ToUpper(strings.Join(w, " ")))
+	}
+	return sb.String()
+}
+
+// c04sFaultSweep runs the delete of c once per statement position of its fault-free trace dry.Evs
+// with that statement failing, and judges every run: the failure must come back to the caller and
+// must not be followed by a COMMIT.
+func c04sFaultSweep(c *c04sCase, ranges []t.Range, dry c04sRun, what string, always bool, o *kit.Outcome) *kit.Viol {
+	pos := c18Positions(dry.Evs)
+	shape := c04sShape(c, dry.Evs)
+	if !always {
+		c04sSwept.Lock()
+		done := c04sSwept.m[shape]
+		c04sSwept.Unlock()
+		if done {
+			o.Classes = append(o.Classes, "fault-sweep:same-shape-swept-before")
+			return nil
+		}
+	}
+	for k := 1; k <= len(pos); k++ {
+		fr := c04sDo(c, ranges, k, "err")
+		if fr.Harness != "" {
+			return kit.V("harness:"+c18AdapterName, "harness problem in the run with statement %d failing: %s", k, fr.Harness)
+		}
+		fi := -1
+		for i, e := range fr.Evs {
+			if e.Fault {
+				fi = i
+				break
+			}
+		}
+		if fi < 0 {
+			// cannot happen: up to statement k the run is identical to the fault-free one
+			o.Classes = append(o.Classes, "fault-sweep:position-not-reached")
+			continue
+		}
+		failed := fr.Evs[fi]
+		if os.Getenv("C04S_SHOW") != "" {
+			fmt.Printf("    k=%d err=%v panic=%q: %s\n", k, fr.Err, fr.Panic, strings.Join(c18TraceStrings(fr.Evs), " | "))
+		}
+		if fr.Panic != "" {
+			o.Classes = append(o.Classes, "fault-sweep:call-panicked")
+			continue
+		}
+		committed := false
+		for _, e := range fr.Evs[fi+1:] {
+			if e.Conn == failed.Conn && e.Cls == "commit" && e.Res == "ok" {
+				committed = true
+			}
+		}
+		tr := strings.Join(c18TraceStrings(fr.Evs), "\n    ")
+		if fr.Err == nil {
+			after := "no COMMIT followed"
+			if committed {
+				after = "the transaction was then COMMITTED: the delete is reported as done and is durable although it is incomplete"
+			}
+			return kit.V("sql-delete-failure-swallowed", "%s: statement %d of the delete failed (%s) but MessageDeleteList returned nil; %s; statement trace:\n    %s", what, k, failed, after, tr)
+		}
+		if committed {
+			return kit.V("sql-delete-committed-after-failure", "%s: statement %d of the delete failed (%s), MessageDeleteList returned %q, and a COMMIT followed the failed statement: a part of the delete is durable; statement trace:\n    %s", what, k, failed, fr.Err, tr)
+		}
+	}
+	o.Classes = append(o.Classes, "fault-sweep:judged")
+	c04sSwept.Lock()
+	c04sSwept.m[shape] = true
+	c04sSwept.Unlock()
+	return nil
 }
 
 // c04sSelfCheck pins the evaluator on hand-written statements before it is trusted as an oracle
